@@ -307,6 +307,35 @@ class ExploreResult:
         self.seconds = 0.0
 
 
+def _attr_set_in_class_source(msg):
+    """True iff msg is "'X' object has no attribute 'y'" and some method of a repository class named X assigns self.y"""
+    import re
+    import os
+    m = re.match(r"'(\w+)' object has no attribute '(\w+)'", msg)
+    if not m:
+        return False
+    cls, attr = m.groups()
+    from . import extract
+    pat_cls = re.compile(r"^class\s+" + re.escape(cls) + r"\b", re.M)
+    pat_set = re.compile(r"self\." + re.escape(attr) + r"\s*(:[^=\n]*)?=[^=]")
+    for root, _, files in os.walk(extract.REPO_SRC):
+        for fn in files:
+            if fn.endswith(".py"):
+                try:
+                    txt = open(os.path.join(root, fn), encoding="utf-8").read()
+                except OSError:
+                    continue
+                mm = pat_cls.search(txt)
+                if mm:
+                    # the class body: up to the next top-level class/def
+                    rest = txt[mm.start():]
+                    nxt = re.search(r"^(class|def)\s", rest[1:], re.M)
+                    body = rest[: nxt.start() + 1] if nxt else rest
+                    if pat_set.search(body):
+                        return True
+    return False
+
+
 def explore(harness, vc_factory, opts=None):
     """Run `harness(vc)` along every feasible path."""
     opts = opts or {}
@@ -337,6 +366,12 @@ def explore(harness, vc_factory, opts=None):
             if isinstance(e, (TypeError, ValueError, AttributeError, NotImplementedError)) and any(
                     n in str(e) for n in ("SNum", "SBool", "GVec", "LVec", "LMat", "LState", "SymSet", "SymDict", "GFrame", "_Box")):
                 res.unsupported.append(f"{type(e).__name__}: {str(e)[:160]} (path {c.decisions})")
+                res.paths += 1
+                e = None
+            elif isinstance(e, AttributeError) and _attr_set_in_class_source(str(e)):
+                # an object built by the contract without running __init__ lacks an attribute that the class's own code assigns
+                # (e.g. a field added to __init__ by a refactoring): the harness has to be extended - undecided, never a violation
+                res.unsupported.append(f"harness does not initialise an attribute the class assigns itself: {str(e)[:160]} (path {c.decisions})")
                 res.paths += 1
                 e = None
             # the real code (or the contract) raised on this path: obligation "<harness>.noraise" = path infeasible
